@@ -76,6 +76,15 @@ def opTess (args : List String) : String :=
         if mask.getD i false then some (Oracle.cellStr t (Oracle.buildCell t i brute) verts m2) else none
       s!"NC {cells.length} " ++ " ".intercalate cells ++ s!" T {ratStr (Oracle.boxVolume t)}"
 
+/-- op `lowdim` (C08): exact cells of all generators of the first input of the record (what follows it is ignored) -/
+def opLowdim (args : List String) : String :=
+  match parseTessIn args with
+  | none => "bad-op"
+  | some (t0, _) =>
+    let t := t0.norm
+    let cells := (List.range t.gens.size).map fun i => Oracle.cellStr t (Oracle.buildCell t i false) false false
+    s!"NC {cells.length} " ++ " ".intercalate cells ++ s!" T {ratStr (Oracle.boxVolume t)}"
+
 /-- `PI k {C idx np {right shifted valid hastet}}` -/
 def parsePlaneInfo (ts : List String) : Option (List Tess.CellInfo) :=
   let rec planes : Nat → List String → Option (List Tess.PlaneInfo × List String)
@@ -185,6 +194,7 @@ def handle (line : String) : String :=
       | "nnvisit" => (match parseTessIn args with | some (t0, rest) => opNNVisit t0 rest | none => "bad-op")
       | "clipperm" => opClipperm args
       | "cycle" => opCycle args
+      | "lowdim" => opLowdim args
       | "addfar" => "-"
       | "partial" => "-"
       | _ => "unknown-op"
